@@ -114,7 +114,7 @@ Theorem C02_constraint_algebra_tie :
      (gen_and_apply_concat = true /\ apply_acon (AAnd a b) = apply_acon a ++ apply_acon b) /\
      (gen_leaf_apply_self = true /\ apply_acon (ALeaf k) = [k])) /\
   (forall a b c d e f g h i, gen_equals a b c d e f g h i = equals_skel a b c d e f g h i) /\
-  (forall a b c d e f g, gen_in a b c d e f g = in_skel a b c d e f g) /\
+  (forall a b c d e f g h, gen_in a b c d e f g h = in_skel a b c d e f g h) /\
   (forall l use_is s positive, wf_obj l = true ->
      pred_equals l use_is s positive =
      einterp (equals_skel (is_known_b (sbase s))
@@ -124,7 +124,7 @@ Theorem C02_constraint_algebra_tie :
                 (cls_eqb (nominal_cls (sbase s)) (class_of l))) s l) /\
   (forall ls s positive,
      pred_in ls s positive =
-     iinterp (in_skel (is_known_b (sbase s)) (existsb (py_eq (known_obj (sbase s))) ls) positive
+     iinterp (in_skel (is_known_b (sbase s)) (existsb (py_eq (known_obj (sbase s))) ls) positive true
                 (match filter (assignable_lit s) ls with [] => false | _ => true end)
                 (match in_pattern_type ls with Some c => is_enum c | None => false end)
                 (match sbase s with VTyped _ => true | _ => false end)
@@ -315,44 +315,66 @@ Proof. exact loops_tie. Qed.
 Print Assumptions C02_loops_tie.
 
 (* (1c) `x in "<s>"` / `x not in "<s>"` (round 4): a container whose own __contains__ is not element-wise.
-   InPredicate receives the container itself (read off the source); Literal members always survive; other members
-   survive under the clause nonelementwise_container (finding C02-in-nonelementwise-container), which is refuted
-   without it; the seeded rule (InPredicate receives the iterated elements) loses a Literal member *)
+   InPredicate receives the container itself (read off the source) and, since the repair of
+   C02-in-nonelementwise-container, leaves a non-Literal member alone unless the container is element-wise (part of
+   the translated InPredicate skeleton): keeps-value holds without any clause.  The rule before the repair needed
+   the clause nonelementwise_container and is refuted without it; the seeded rule (InPredicate receives the iterated
+   elements) loses a Literal member *)
 Theorem C02_in_arg_tie : gen_in_arg = model_in_arg.
 Proof. exact in_arg_tie. Qed.
 Print Assumptions C02_in_arg_tie.
 
-Theorem C02_instr_keeps_value_partial : forall V s pol o,
-  wf_obj o = true -> member o V = true -> holds_instr s o = Some pol -> nonelementwise_container s o = false ->
+Theorem C02_instr_keeps_value : forall V s pol o,
+  wf_obj o = true -> member o V = true -> holds_instr s o = Some pol ->
   member o (instr_narrow V s pol) = true.
-Proof. exact instr_keeps_value_partial. Qed.
-Print Assumptions C02_instr_keeps_value_partial.
+Proof. exact instr_keeps_value. Qed.
+Print Assumptions C02_instr_keeps_value.
 
-Theorem C02_instr_literals_kept : forall V s pol o,
+Theorem C02_instr_model_is_skeleton : forall s sv positive,
+  is_known_b (sbase sv) = false ->
+  pred_instr_with model_in_arg model_typed_rule s sv positive =
+  iinterp (in_skel false false positive false
+             (match filter (assignable_lit sv) (str_chars s) with [] => false | _ => true end)
+             (match in_pattern_type (str_chars s) with Some c => is_enum c | None => false end)
+             (match sbase sv with VTyped _ => true | _ => false end)
+             (match in_pattern_type (str_chars s), sbase sv with Some c, VTyped c' => cls_eqb c c' | _, _ => false end))
+          sv (str_chars s).
+Proof. exact pred_instr_typed_is_skel. Qed.
+Print Assumptions C02_instr_model_is_skeleton.
+
+Theorem C02_instr_literals_kept : forall tr V s pol o,
   all_known V = true -> member o V = true -> holds_instr s o = Some pol ->
-  member o (instr_narrow V s pol) = true.
+  member o (instr_narrow_with model_in_arg tr V s pol) = true.
 Proof. exact instr_literals_kept. Qed.
 Print Assumptions C02_instr_literals_kept.
 
-Theorem C02_nonelementwise_container_refuted :
+(* statements about the rule InPredicate followed before the repair (not HEAD) *)
+Theorem C02_instr_iterate_rule_keeps_value_partial : forall V s pol o,
+  wf_obj o = true -> member o V = true -> holds_instr s o = Some pol -> nonelementwise_container s o = false ->
+  member o (instr_narrow_with model_in_arg IterateAlways V s pol) = true.
+Proof. exact instr_iterate_rule_keeps_value_partial. Qed.
+Print Assumptions C02_instr_iterate_rule_keeps_value_partial.
+
+Theorem C02_instr_iterate_rule_refuted :
   exists V s o, wf_obj o = true /\ member o V = true /\ holds_instr s o = Some true /\
-    nonelementwise_container s o = true /\ member o (instr_narrow V s true) = false.
-Proof. exact nonelementwise_container_refuted. Qed.
-Print Assumptions C02_nonelementwise_container_refuted.
+    nonelementwise_container s o = true /\ member o (instr_narrow_with model_in_arg IterateAlways V s true) = false.
+Proof. exact instr_iterate_rule_refuted. Qed.
+Print Assumptions C02_instr_iterate_rule_refuted.
 
 Theorem C02_instr_elements_rule_refuted :
   exists V s o, all_known V = true /\ member o V = true /\ holds_instr s o = Some true /\
-    member o (instr_narrow_with ArgElements V s true) = false.
+    member o (instr_narrow_with ArgElements model_typed_rule V s true) = false.
 Proof. exact instr_elements_rule_refuted. Qed.
 Print Assumptions C02_instr_elements_rule_refuted.
 
-(* a constraint applied to a variable other than the tested one (finding C02-callee-constraint-leak): the main
-   theorem's hypothesis "the condition was evaluated on the bound object" is the guard; without it, refuted *)
-Theorem C02_callee_leak_refuted :
+(* the rule removed by 180079d (a helper's constraint applied to the caller's variable of the same name): not a
+   statement about HEAD; the main theorem's hypothesis "the condition was evaluated on the bound object" is what
+   that rule violated *)
+Theorem C02_callee_leak_rule_refuted :
   exists V c pol o o', member o V = true /\ holds c o' = Some pol /\ c02_guard c o' = true /\
     member o (leak_narrow V c pol) = false.
-Proof. exact callee_leak_refuted. Qed.
-Print Assumptions C02_callee_leak_refuted.
+Proof. exact callee_leak_rule_refuted. Qed.
+Print Assumptions C02_callee_leak_rule_refuted.
 
 (* `case <pattern> as p` (finding C02-subpattern-constraint-on-subject, = C01's): fine without sub-patterns,
    refuted with them *)
